@@ -608,8 +608,8 @@ func c14Workflows(t *testing.T, r *vReport, idx *int64, root string) {
 	// derivation agreement: the interface taken from the callee's file and from its AST must lead
 	// to the same diagnostics of the caller for every spelling of the attribute values that the
 	// workflow parser accepts (callee alone lints clean)
-	reqSpell := []string{"", "true", "false", "${{ true }}", "${{ false }}", "${{ github.event_name == 'push' }}"}
-	defSpell := []string{"", "x", "''", "1", "true", "${{ github.sha }}", "null"}
+	reqSpell := []string{"", "true", "false", "${{ true }}", "${{ false }}", "${{ github.event_name == 'push' }}", "True", "TRUE", "False"}
+	defSpell := []string{"", "x", "''", "1", "true", "${{ github.sha }}", "null", "~", "Null", "<empty>", "'null'"}
 	for _, ty := range []string{"string", "number", "boolean"} {
 		for _, rq := range reqSpell {
 			for _, df := range defSpell {
@@ -623,7 +623,9 @@ func c14Workflows(t *testing.T, r *vReport, idx *int64, root string) {
 					if rq != "" {
 						c.WriteString("        required: " + rq + "\n")
 					}
-					if df != "" {
+					if df == "<empty>" {
+						c.WriteString("        default:\n")
+					} else if df != "" {
 						c.WriteString("        default: " + df + "\n")
 					}
 					c.WriteString("    secrets:\n      dsec:\n")
@@ -634,8 +636,10 @@ func c14Workflows(t *testing.T, r *vReport, idx *int64, root string) {
 					}
 					c.WriteString("jobs:\n  j:\n    runs-on: ubuntu-latest\n    steps:\n      - run: echo\n")
 					callee := c.String()
-					if res := vLint(callee, nil); len(res.Errs) > 0 || res.Err != nil || res.Panic != "" {
-						r.Class("derivation: callee not clean (skipped)", false)
+					// the callee must be accepted by the workflow parser; remarks of other rules about it
+					// (a default that can never be used, ...) do not make its interface ill-formed
+					if res := vLint(callee, nil); res.Err != nil || res.Panic != "" || c14HasKind(res.Errs, "syntax-check", "expression") {
+						r.Class("derivation: callee not accepted by the parser (skipped)", false)
 						continue
 					}
 					for _, site := range []string{"", "    with:\n      din: " + map[string]string{"string": "abc", "number": "42", "boolean": "true"}[ty] + "\n    secrets:\n      dsec: x\n"} {
@@ -709,6 +713,17 @@ func upperAll(ss []string) []string {
 		out[i] = strings.ToUpper(s)
 	}
 	return out
+}
+
+func c14HasKind(errs []*Error, kinds ...string) bool {
+	for _, e := range errs {
+		for _, k := range kinds {
+			if e.Kind == k {
+				return true
+			}
+		}
+	}
+	return false
 }
 
 func TestVerifC14(t *testing.T) {
